@@ -1,6 +1,6 @@
 (* C09 — exported theorems only: each is closed by [exact] and followed by Print Assumptions. *)
 From Coq Require Import List ZArith Bool Permutation.
-From Verif Require Import C09.Model C09.Spec C09.Proofs_Agg C09.Proofs_Float C09.Proofs_Mono C09.Proofs C09.Proofs_Mid C09.Proofs_FloatAcc C09.Proofs_FloatMono C09.Proofs_ZoneMono C09.Proofs_Perm C09.Cfg C09.CfgSpec C09.Proofs_Cfg.
+From Verif Require Import C09.Model C09.Spec C09.Proofs_Agg C09.Proofs_Float C09.Proofs_Mono C09.Proofs C09.Proofs_Mid C09.Proofs_FloatAcc C09.Proofs_FloatMono C09.Proofs_ZoneMono C09.Proofs_Perm C09.Cfg C09.CfgSpec C09.Proofs_Cfg C09.Publish.
 Import ListNotations.
 Open Scope Z_scope.
 
@@ -171,6 +171,25 @@ Theorem c09_reclaim_observable : forall a b,
 Proof. exact run_batch_reclaim. Qed.
 Print Assumptions c09_reclaim_observable.
 
+(* --- what Prepare publishes: the calculated amount minus the koord-batch third-party allocations of the
+       node annotation, clamped at zero — still inside every bound, and antitone in the allocation (clause 7) --- *)
+Theorem c09_published_holds : forall b tp,
+  input_wf b = true -> tp_nonneg tp = true ->
+  C09_holds b (apply_tp tp (run_batch b)) /\ batch_code false b (apply_tp tp (run_batch b)) = 0.
+Proof. exact (fun b tp H1 H2 => conj (published_holds b tp H1 H2) (published_code b tp H1 H2)). Qed.
+Print Assumptions c09_published_holds.
+
+Theorem c09_published_antitone : forall a b ta tb,
+  pub_antitone_code a b ta tb (apply_tp ta (run_batch a)) (apply_tp tb (run_batch b)) = 0.
+Proof. exact published_antitone. Qed.
+Print Assumptions c09_published_antitone.
+
+Theorem c09_metamorphic_ignore_published : forall a b ta tb oa ob,
+  antitone_code a b (apply_tp ta oa) (apply_tp tb ob) = antitone_code a b oa ob /\
+  reclaim_code a b (apply_tp ta oa) (apply_tp tb ob) = reclaim_code a b oa ob.
+Proof. exact (fun a b ta tb oa ob => conj (antitone_code_tp a b ta tb oa ob) (reclaim_code_tp a b ta tb oa ob)). Qed.
+Print Assumptions c09_metamorphic_ignore_published.
+
 (* --- the mid tier --- *)
 Theorem c09_mid_le_threshold : forall m, 0 <= m_cap_cpu m -> 0 <= m_cap_mem m ->
   mid_ok (mid_thr_cpu m) (mid_bound_cpu m) (mid_cpu m) /\
@@ -199,6 +218,23 @@ Theorem c09_resolve_label_precedence : forall s c,
   s_mem_reclaim (resolve_strategy s c) = ratio_label_pct (nc_l_mem c).
 Proof. exact resolve_label_precedence. Qed.
 Print Assumptions c09_resolve_label_precedence.
+
+(* a label in any accepted spelling / with 1-4 decimals overrides; int64(v*100) rounds DOWN (never more
+   than the ratio written on the node, less than one percent lost): exhaustive kernel computation on the
+   exact binary64 model for labels up to 10.0 (four decimals: up to 1.6383) *)
+Theorem c09_resolve_label_precedence_k : forall s c,
+  0 < label_scale (nc_l_cpu_kind c) -> 0 < label_scale (nc_l_mem_kind c) ->
+  s_cpu_reclaim (resolve_strategy s c) = ratio_label_pct_k (label_scale (nc_l_cpu_kind c)) (nc_l_cpu c) /\
+  s_mem_reclaim (resolve_strategy s c) = ratio_label_pct_k (label_scale (nc_l_mem_kind c)) (nc_l_mem c).
+Proof. exact resolve_label_precedence_k. Qed.
+Print Assumptions c09_resolve_label_precedence_k.
+
+Theorem c09_label_rounds_down : forall kind h,
+  0 < label_scale kind -> 0 <= h <= 10 * label_scale kind -> h < 16384 ->
+  let p := ratio_label_pct_k (label_scale kind) h in
+  label_scale kind * p <= 100 * h <= label_scale kind * (p + 1).
+Proof. exact label_rounds_down. Qed.
+Print Assumptions c09_label_rounds_down.
 
 Theorem c09_resolve_bad_annotation_ignored : forall s c,
   (nc_anno c =? 1) = false ->
